@@ -7,8 +7,9 @@
    the callback [f p].  For walkers that put the keyword arguments into the key (SizeOracle)
    the parameter is part of the node id instead and [f] ignores it.
 
-   An exception leaves `walk` before `self.memoization.clear()` and with the unprocessed part
-   of the stack still in place (core/DagWalk.v: [walk], [Raise]).  No proofs here. *)
+   When a call raises, iter_walk empties the stack before re-raising and walk clears a
+   one-shot table in its `finally` (core/DagWalk.v: [iter_walk], [walk]; /repo c824285,
+   4d718bf).  No proofs here. *)
 From Coq Require Import List Arith Bool.
 From PySMT.core Require Import DagWalk.
 Import ListNotations.
